@@ -339,9 +339,15 @@ impl Compiler {
             return self.compile_accessor_property(obj, prop);
         }
 
-        // Compile the value for regular properties
+        // Compile the value for regular properties; an anonymous function, arrow or class
+        // is named after the property (`{ m() {} }`, `{ f: () => 1 }`)
         let value_reg = self.builder.alloc_register()?;
-        self.compile_expression(&prop.value, value_reg)?;
+        let inferred_name = match &prop.key {
+            ObjectPropertyKey::Identifier(id) => Some(id.name.cheap_clone()),
+            ObjectPropertyKey::String(s) => Some(s.value.cheap_clone()),
+            _ => None,
+        };
+        self.compile_expression_with_inferred_name(&prop.value, value_reg, inferred_name)?;
 
         // Set the property based on key type
         match &prop.key {
@@ -468,9 +474,14 @@ impl Compiler {
             }
         };
 
-        // Compile the accessor function
+        // Compile the accessor function, named after the property
         let accessor_reg = self.builder.alloc_register()?;
-        self.compile_expression(&prop.value, accessor_reg)?;
+        let inferred_name = match &prop.key {
+            ObjectPropertyKey::Identifier(id) => Some(id.name.cheap_clone()),
+            ObjectPropertyKey::String(s) => Some(s.value.cheap_clone()),
+            _ => None,
+        };
+        self.compile_expression_with_inferred_name(&prop.value, accessor_reg, inferred_name)?;
 
         // Create undefined for the other accessor slot
         let undefined_reg = self.builder.alloc_register()?;
